@@ -300,9 +300,10 @@ def _global_setters():
     import decimal
     import locale
     import mimetypes
+    import re
     import warnings
     return [(sys, "getrecursionlimit"), (sys, "setrecursionlimit"), (sys, "setswitchinterval"), (mimetypes, "add_type"), (mimetypes, "init"),
-            (codecs, "register"), (codecs, "register_error"), (os, "chdir"), (os, "umask"), (os, "putenv"), (locale, "setlocale"),
+            (re, "compile"), (codecs, "register"), (codecs, "register_error"), (os, "chdir"), (os, "umask"), (os, "putenv"), (locale, "setlocale"),
             (decimal, "setcontext"), (warnings, "simplefilter"), (warnings, "filterwarnings"), (warnings, "resetwarnings"),
             (warnings.catch_warnings, "__enter__"), (warnings.catch_warnings, "__exit__"), (decimal, "localcontext"), (gc, "disable"), (gc, "enable"), (threading, "setprofile"), (threading, "settrace")]
 
@@ -358,6 +359,15 @@ def part_sched_globals(case):
         def make_fns():
             # every schedule starts from the state before the exploration (a residue is reported for the schedule that leaves it, not for all later ones)
             originals[(sys, "setrecursionlimit")](limit0)
+            if case.get("first_use"):
+                # ... and from the extractor modules' import-time state: whatever they initialise lazily on first use (tables filled one entry at
+                # a time, compiled patterns, memo dicts) is initialised again, under this schedule
+                import importlib
+                from vlib import obs
+                for kind in sorted({st[0] for st in steps if st[0] != "route"}):
+                    mod = sys.modules.get(getattr(obs.extractor(kind), "__module__", ""))
+                    if mod is not None:
+                        importlib.reload(mod)
             if list(warnings.filters) != filters0:
                 warnings.filters[:] = filters0
                 getattr(warnings, "_filters_mutated", lambda: None)()
@@ -372,6 +382,8 @@ def part_sched_globals(case):
             labels = sorted({lbl for _t, lbl in run.trace if lbl not in ("start", "acquire")})
             seen_labels.update(labels)
             feat = "+".join(l.split(".")[-1] for l in labels) or "no-setter-called"
+            if case.get("first_use"):
+                feat = "+".join(sorted({st[0] for st in steps})) + "-at-" + feat
             trace = " ".join(f"T{t}:{lbl.split('.')[-1]}" for t, lbl in run.trace if lbl != "start")
             if run.errors:
                 bad.append({"sym": "thread-raised", "feature": feat, "detail": run.errors[0], "trace": trace})
@@ -402,7 +414,7 @@ def part_sched_globals(case):
         first.setdefault(key, b)
         first[key]["count"] = first[key].get("count", 0) + 1
     return {"part": "sched-globals", "threads": k, "stats": stats, "problems": list(first.values()), "setters_called": sorted(seen_labels), "hooks_live": hooks_live[0],
-            "solo": solo}
+            "solo": solo, "first_use": bool(case.get("first_use"))}
 
 
 # ------------------------------------------------------------------------------------------ part 1c: the AES round-key memo under the controlled scheduler
@@ -744,6 +756,187 @@ def _feature(step) -> str:
     return ""
 
 
+# ------------------------------------------------------------------------------------------ part 2b: first use under overlapping threads (fresh process, no warm-up)
+def part_cold(case):
+    """The very first thing this (fresh) process does: n threads released together, each extracting one document.  Whatever the library initialises
+    lazily on first use (module-level tables, caches, lazily imported modules, one-way patches) is initialised under overlap.  Every result must
+    equal the document's isolated baseline (a fresh process extracting it alone), given by the parent."""
+    from vlib import obs
+    steps = [_step(st) for st in case["steps"]]
+    inputs = [_step_io(st) for st in steps]
+    expect = case["expect"]
+    n = len(inputs)
+    for kind in sorted({inp[0] for inp in inputs if inp[0] != "route"}):
+        obs.extractor(kind)         # importing the extractor modules one after the other is not part of the race (concurrent first import is C07's)
+    bar = threading.Barrier(n)
+    got = [None] * n
+    errs = []
+
+    def body(i):
+        try:
+            bar.wait()
+            got[i] = _extract_digest(*inputs[i])
+        except BaseException as e:
+            errs.append(f"{type(e).__name__}: {e}")
+    old = sys.getswitchinterval()
+    sys.setswitchinterval(1e-6)
+    ts = [threading.Thread(target=body, args=(i,)) for i in range(n)]
+    try:
+        for t in ts:
+            t.start()
+        for t in ts:
+            t.join(300)
+    finally:
+        sys.setswitchinterval(old)
+    if errs:
+        return {"_harness_error": "cold thread failed: " + errs[0]}
+    problems = []
+    for i in range(n):
+        if expect[i] is not None and got[i] != expect[i]:
+            problems.append({"sym": "result-differs-on-overlapping-first-use", "feature": _feature(steps[i]), "detail": f"{_short(steps[i])}: {got[i]} as one of {n} first extractions of a process vs {expect[i]} alone"})
+    # afterwards, alone, everything must be as in isolation (a half-initialised table must not stay half-initialised)
+    for i in range(n):
+        d = _extract_digest(*inputs[i])
+        if expect[i] is not None and d != expect[i]:
+            problems.append({"sym": "result-differs-after-overlapping-first-use", "feature": _feature(steps[i]), "detail": f"{_short(steps[i])}: {d} afterwards vs {expect[i]} in isolation"})
+    first = {}
+    for p in problems:
+        first.setdefault((p["sym"], p["feature"]), p)
+    return {"part": "cold", "threads": n, "compared": sum(1 for e in expect if e is not None), "problems": list(first.values())}
+
+
+# ------------------------------------------------------------------------------------------ part 2c: interleaved lazy generators in one thread
+GEN_MODES = ["suspended-then-other", "zip-lockstep", "abandoned-then-other", "closed-early-then-other", "nested-same-document"]
+
+
+def part_generators(case):
+    """Every extractor is a generator function.  One thread keeps a generator of document A suspended (after its first result, or before it), runs
+    another extraction meanwhile, walks two generators in lock-step, abandons or closes one early - and every completed extraction must give
+    what the document gives alone.  Runs in a helper thread with a time limit: a consumer must never block on its own suspended generator."""
+    from vlib import obs
+    steps = [_step(st) for st in case["steps"]]
+    inputs = [_step_io(st) for st in steps]
+    expect = case.get("expect") or [None] * len(inputs)
+
+    def gen(i):
+        kind, data, path = inputs[i]
+        if isinstance(path, dict):
+            return iter(_via_read_file(data, path))
+        return obs.extractor(kind)(io.BytesIO(data), path)
+
+    def digest_of(results):
+        return _digest(results)
+
+    def full(i):
+        try:
+            return digest_of(list(gen(i)))
+        except Exception as e:
+            return f"raises {type(e).__name__}"
+    solo = [full(i) for i in range(len(inputs))]
+    ref = [expect[i] if expect[i] is not None else solo[i] for i in range(len(inputs))]
+    problems = []
+    start = snapshot()
+
+    def check(mode, i, d):
+        if d != ref[i]:
+            problems.append({"sym": "result-differs-with-a-suspended-generator", "feature": mode + ":" + (_feature(steps[i]) or steps[i][0]), "detail": f"[{mode}] {_short(steps[i])}: {d} vs {ref[i]} alone"})
+
+    def run_mode(mode, a, b):
+        if mode == "suspended-then-other":
+            ga = gen(a)
+            first = []
+            try:
+                first.append(next(ga))
+            except StopIteration:
+                pass
+            except Exception:
+                first = None
+            check(mode, b, full(b))
+            if first is not None:
+                try:
+                    check(mode, a, digest_of(first + list(ga)))
+                except Exception as e:
+                    check(mode, a, f"raises {type(e).__name__}")
+        elif mode == "zip-lockstep":
+            gens = {"a": [gen(a), [], None], "b": [gen(b), [], None]}
+            while True:
+                adv = False
+                for slot in gens.values():
+                    if slot[2] is not None:
+                        continue
+                    try:
+                        slot[1].append(next(slot[0]))
+                        adv = True
+                    except StopIteration:
+                        slot[2] = "done"
+                    except Exception as e:
+                        slot[2] = f"raises {type(e).__name__}"
+                if not adv:
+                    break
+            for i_, key in ((a, "a"), (b, "b")):
+                check(mode, i_, digest_of(gens[key][1]) if gens[key][2] == "done" else gens[key][2])
+        elif mode == "abandoned-then-other":
+            ga = gen(a)
+            try:
+                next(ga)
+            except (StopIteration, Exception):
+                pass
+            check(mode, b, full(b))
+            del ga
+            gc.collect()
+            check(mode, a, full(a))
+        elif mode == "closed-early-then-other":
+            ga = gen(a)
+            try:
+                next(ga)
+            except (StopIteration, Exception):
+                pass
+            ga.close()
+            check(mode, b, full(b))
+            check(mode, a, full(a))
+        elif mode == "nested-same-document":
+            ga = gen(a)
+            try:
+                next(ga)
+            except (StopIteration, Exception):
+                pass
+            check(mode, a, full(a))
+            try:
+                list(ga)
+            except Exception:
+                pass
+    done = []
+
+    def worker():
+        for mode in case.get("modes", GEN_MODES):
+            for a, b in case["pairs"]:
+                run_mode(mode, a, b)
+                done.append((mode, a, b))
+    t = threading.Thread(target=worker, daemon=True)
+    t.start()
+    t.join(case.get("time_limit", 120))
+    blocked = t.is_alive()
+    if blocked:
+        nxt = len(done)
+        seq = [(m, a, b) for m in case.get("modes", GEN_MODES) for a, b in case["pairs"]]
+        m, a, b = seq[min(nxt, len(seq) - 1)]
+        problems.append({"sym": "extraction-blocks-while-a-generator-is-suspended", "feature": m + ":" + (_feature(steps[b]) or steps[b][0]),
+                         "detail": f"[{m}] still blocked after {case.get('time_limit', 120)} s: {_short(steps[a])} suspended, {_short(steps[b])} started in the same thread"})
+    else:
+        gc.collect()
+        now = snapshot()
+        for k2 in start:
+            if k2 == "open_fds":
+                if now[k2] > start[k2] + 2:
+                    problems.append({"sym": "global-state-changed:open_fds", "feature": "", "detail": f"after all generators were finished / closed / collected: {start[k2]} -> {now[k2]}"})
+            elif k2 != "threads" and now[k2] != start[k2]:
+                problems.append({"sym": f"global-state-changed:{k2.split(':')[0]}", "feature": "", "detail": f"after all generators were finished / closed / collected: {k2}: {start[k2]} -> {now[k2]}"})
+    first = {}
+    for p in problems:
+        first.setdefault((p["sym"], p["feature"]), p)
+    return {"part": "generators", "interleavings": len(done), "blocked": blocked, "problems": list(first.values())}
+
+
 # ------------------------------------------------------------------------------------------ part 3: histories
 def part_history(case):
     problems = []
@@ -793,7 +986,7 @@ def part_baseline(case):
 def work(case):
     from vlib.worker import arm_cpu
     arm_cpu(300)
-    return {"scheduler": part_scheduler, "stress": part_stress, "history": part_history, "baseline": part_baseline, "sched-globals": part_sched_globals, "sched-cache": part_sched_cache}[case["part"]](case)
+    return {"scheduler": part_scheduler, "stress": part_stress, "history": part_history, "baseline": part_baseline, "sched-globals": part_sched_globals, "sched-cache": part_sched_cache, "cold": part_cold, "generators": part_generators}[case["part"]](case)
 
 
 # ------------------------------------------------------------------------------------------ parent
@@ -858,6 +1051,19 @@ def main(run):
         v = spec[3]
         setter_cases.append({"part": "sched-globals", "steps": [[spec[0], {"src": ["iso", fam, v[0]], "op": None}, 1], [spec[0], {"src": ["iso", fam, v[1]], "op": None}, 0]],
                              "seed": run.seed, "max_schedules": run.n(200, 2000)})
+    # first use of an extractor's lazily initialised state, explored: per format the two largest context-group documents (then the next two) in two
+    # threads, the extractor module reloaded before every schedule; scheduling points are the same hooks plus re.compile
+    sized = {}
+    for fam, spec in sorted(iso.FAMILIES.items()):
+        if spec[0] == "route" or fam.startswith("deep-") or fam in ("pdf-font", "pdf-cs"):
+            continue
+        for v in spec[3]:
+            src_ = ["iso", fam, v]
+            sized.setdefault(spec[0], []).append((len(iso.load(src_)), [spec[0], {"src": src_, "op": None}, 1]))
+    for kind_, lst in sorted(sized.items()):
+        lst.sort(key=lambda x: -x[0])
+        for j in range(0, min(len(lst) - 1, run.n(4, 8)), 2):
+            setter_cases.append({"part": "sched-globals", "first_use": True, "steps": [lst[j][1], lst[j + 1][1]], "seed": run.seed, "max_schedules": run.n(150, 1500)})
     cases += setter_cases
     # the AES round-key memo at capacity: a hit on the entry that is next to be evicted against misses that evict (all interleavings for 2 threads)
     cases += [{"part": "sched-cache", "threads": 2, "seed": run.seed}, {"part": "sched-cache", "threads": 3, "seed": run.seed, "preemption_bound": 2, "max_schedules": run.n(400, 6000)},
@@ -937,8 +1143,45 @@ def main(run):
             for _ in range(rng.randint(0, 2)):
                 steps.insert(rng.randrange(len(steps) + 1), rng.choice(damaged_iso + pool_steps[:len(pdfs) + len(others)]))
             hist_cases.append({"part": "history", "steps": steps, "id": f"g{gi}.{rep}", "group": g["name"]})
+    # first use under overlap: per format a fresh process whose first action is up to 8 context-group documents of that format at once (they race
+    # for the same lazily initialised state of that extractor); a few mixed ones
+    cold_cases = []
+    def risky(step):
+        return iso.is_iso(step[1]["src"]) and iso.feature(step[1]["src"], step[0]) in iso.RISKY_FEATURES
+    by_kind_members = {}
+    for g in groups:
+        for k, s_ in g["members"]:
+            st = [k, {"src": s_, "op": None}, pidx_of(s_)]
+            if k != "route" and not risky(st) and not (s_[0] == "raw" and "aes256" in str(s_[2:])):
+                by_kind_members.setdefault(k, {})[_step_key(st)] = st
+    for k, ms_ in sorted(by_kind_members.items()):
+        ms = list(ms_.values())
+        for rep in range(run.n(3, 10)):
+            pick = rng.sample(ms, min(len(ms), 8))
+            while len(pick) < 4:
+                pick = pick + pick
+            cold_cases.append({"part": "cold", "steps": [list(x) for x in pick], "group": k})
+    for i in range(run.n(6, 40)):
+        cold_cases.append({"part": "cold", "steps": [list(rng.choice([st for st in iso_steps if not risky(st)])) for _ in range(8)], "group": "mixed"})
+    # interleaved lazy generators in one thread: archives (several results per generator) against archives and against documents
+    multi = ([["zip", {"src": ["iso", "zip", v], "op": None}, 1] for v in ("A", "B")] + [["zip", {"src": ["iso", "zip-mime", "zipB"], "op": None}, 1], ["zip", {"src": ["iso", "tar-mime", "tarB"], "op": None}, 1]]
+             + [["zip", {"src": s_, "op": None}, 1] for s_ in sources.get("zip", []) if s_[0] == "arch"] + [["mbox", {"src": ["iso", "mbox-sized", "box"], "op": None}, 1]])
+    single = [["docx", {"src": ["iso", "docx", "hfA"], "op": None}, 1], ["pdf", pdfs[0][1] and {"src": pdfs[0][1], "op": None}, 1], ["xlsx", {"src": ["iso", "xlsx", "vals-mixed"], "op": None}, 1],
+              ["rtf", {"src": ["iso", "rtf-cp", "1251:hf"], "op": None}, 1], ["html", {"src": ["iso", "html", "cpA"], "op": None}, 1], ["epub", {"src": ["iso", "epub-multi", "navs"], "op": None}, 1],
+              ["eml", {"src": ["iso", "eml-sized", "msg-long"], "op": None}, 1], ["odt", {"src": ["iso", "odt", "imgA"], "op": None}, 1]]
+    gen_cases_ = []
+    for i in range(run.n(4, 24)):
+        steps_ = rng.sample(multi, min(len(multi), 3)) + rng.sample(single, 2)
+        if rng.random() < 0.5:      # the file entry point is a generator too
+            steps_.append([steps_[0][0], steps_[0][1], {"entry": "read_file", "pidx": 2}])
+        idx = list(range(len(steps_)))
+        pairs = [(0, 1), (1, 0), (0, 0), (0, 3), (3, 0), (2, 4)] + ([(0, len(steps_) - 1), (len(steps_) - 1, 1)] if len(steps_) > 5 else [])
+        gen_cases_.append({"part": "generators", "steps": [list(x) for x in steps_], "pairs": pairs, "time_limit": 60, "modes": GEN_MODES if not run.quick or i < 2 else rng.sample(GEN_MODES, 3)})
     # isolated baselines: every (bytes, path) that occurs in a history or a stress case, each in a fresh process
     wanted = {}
+    for cc in cold_cases + gen_cases_:
+        for st in cc["steps"]:
+            wanted.setdefault(_step_key(st), _step(st))
     for hc in hist_cases:
         for st in hc["steps"]:
             wanted.setdefault(_step_key(st), _step(st))
@@ -969,6 +1212,28 @@ def main(run):
     for sc in stress_cases:
         sc["expect"] = [baselines.get(_step_key([inp[0], {"src": inp[1], "op": None}] + list(inp[2:]))) for inp in sc["inputs"]]
         sc["expect_sha"] = [base_sha.get(_step_key([inp[0], {"src": inp[1], "op": None}] + list(inp[2:]))) for inp in sc["inputs"]]
+    for cc in cold_cases + gen_cases_:
+        cc["expect"] = [baselines.get(_step_key(st)) for st in cc["steps"]]
+    # fresh worker per case: nothing has been extracted, imported or initialised before the threads start / a generator left blocked dies with its process
+    for case, ob in pool.run_cases("checks.c15:work", cold_cases + gen_cases_, deadline_s=900, fresh_worker_per_case=True):
+        rep = {"case": {k: v for k, v in case.items() if k != "expect"}}
+        if ob.get("_harness_error"):
+            run.inconclusive("harness error: " + ob["_harness_error"])
+            continue
+        if ob.get("_timeout") or ob.get("_died") or ob.get("_cpu_exhausted") or ob.get("_oom"):
+            run.inconclusive_cases += 1
+            continue
+        if ob["part"] == "cold":
+            run.count("first_use_cases_in_fresh_processes")
+            run.count("first_use_results_compared_with_isolated_baseline", ob["compared"])
+            for p in ob["problems"]:
+                run.violation(f"C15:first-use-{ob['threads']}-threads:{p['feature'] or 'mixed-workload'}:{p['sym']}", p["detail"] + f" (group {case.get('group')})", rep)
+            run.case(f"cold:{case.get('group')}:{len(ob['problems'])}")
+        else:
+            run.count("generator_interleavings", ob["interleavings"])
+            for p in ob["problems"]:
+                run.violation(f"C15:interleaved-generators:{p['feature'] or 'sequence'}:{p['sym']}", p["detail"], rep)
+            run.case(f"generators:{ob['interleavings']}:{ob['blocked']}:{len(ob['problems'])}")
     group_steps = 0
     # the deadline is a watchdog against a wedged worker only (every case is bounded logically and by the worker's CPU budget)
     for case, ob in pool.run_cases("checks.c15:work", cases + stress_cases + hist_cases, deadline_s=2400):
@@ -1022,8 +1287,11 @@ def main(run):
             run.extras["interpreter_wide_setters_called_by_extractions"] = sorted(set(run.extras["interpreter_wide_setters_called_by_extractions"]) | set(ob["setters_called"]))
             run.evaluations += st["schedules"]
             run.distinct.add(f"setters:{case['threads'] if 'threads' in case else len(case['steps'])}:{','.join(ob['setters_called'])}:{len(ob['problems'])}")
+            if ob.get("first_use"):
+                run.count("first_use_explorations_finished")
+                run.count("first_use_schedules", st["schedules"])
             for p in ob["problems"]:
-                run.violation(f"C15:interpreter-wide-setters:{p['feature'] or 'schedule'}:{p['sym']}",
+                run.violation(f"C15:{'first-use-exploration' if ob.get('first_use') else 'interpreter-wide-setters'}:{p['feature'] or 'schedule'}:{p['sym']}",
                               f"{p['detail']} in {p.get('count', 1)} of {st['schedules']} schedules; first schedule: {p['trace']}", {"case": case, "trace": p["trace"]})
         elif part == "stress":
             run.count("stress_extractions", ob["extractions"])
@@ -1085,7 +1353,10 @@ def main(run):
     run.require("context_groups", len(groups), 39)
     run.require("round_key_memo_schedules_2_threads", run.counters.get("round_key_memo_schedules_2_threads", 0), 20)
     run.require("round_key_memo_schedules_3_threads", run.counters.get("round_key_memo_schedules_3_threads", 0), 300)
+    run.require("first_use_cases_in_fresh_processes", run.counters.get("first_use_cases_in_fresh_processes", 0), run.n(40, 150))
+    run.require("generator_interleavings", run.counters.get("generator_interleavings", 0), run.n(60, 500))
     run.require("setter_exploration_cases_finished", run.counters.get("setter_exploration_cases_finished", 0), run.n(25, 40))
+    run.require("first_use_explorations_finished", run.counters.get("first_use_explorations_finished", 0), run.n(15, 30))
     run.require("setter_hook_points_seen_in_self_test", run.counters.get("setter_hook_points_seen_in_self_test", 0), 4)
     run.require("stress_extractions_on_encrypted_pdfs", run.counters.get("stress_extractions_on_encrypted_pdfs", 0), run.n(60, 200))
     run.require("encrypted_pdfs_decrypted_and_extracted_in_isolation", run.counters.get("encrypted_pdfs_decrypted_and_extracted_in_isolation", 0), 4)
